@@ -163,18 +163,18 @@ def nontrivial(line, model_answer):
 
 
 def run(ctx, vlib):
-    impl, model = N.drivers(vlib)
+    impl, model = N.drivers(vlib, need=("conv",))
     rng = ctx["rng"]
     corpus = N.load_corpus("C04")
     gen, classes = gen_cases(rng, ctx["tier"])
     cases = corpus + gen
-    oi = vlib.run_driver(impl, cases)
+    oi = N.run_impl(vlib, impl, cases)
     om = vlib.run_driver(model, cases)
     sws = sweeps(ctx["tier"])
     evals, explicit = N.run_sweeps(vlib, impl, model, sws, expand)
     if explicit:
         cases += explicit
-        oi += vlib.run_driver(impl, explicit, jobs=1)
+        oi += N.run_impl(vlib, impl, explicit, jobs=1)
         om += vlib.run_driver(model, explicit, jobs=1)
     res = N.assess("C04", vlib, impl, model, cases, oi, om, evals, sws, classes,
                    rule="Convert::To/TryTo and Detail::ConvertByPolicy: ALL values of bool/char/int8/uint8/int16/uint16 x 10 integer targets (hashed sweeps, bisected to single cases on mismatch; 8-bit sources (16-bit in thorough) also x 4 policy combinations); 32/64-bit sources at every type limit +-2, +-2^k+-{0,1,2}, around the 24/53-bit exactness thresholds and random, x 12 targets; float/double boundary + random bit patterns x 12 targets; source of another kind; text sources.  Integer ops are compared with the extracted Coq model, float ops with an exact integer/rational oracle.  non-trivial = distinct case whose expected answer is not a plain success",
